@@ -509,6 +509,15 @@ struct LSeq {
 
 const RECONNECT: u8 = 0xFF;
 
+/// the letters that move the secondary station's state (reset, both frame count bits, reconnect,
+/// unconfirmed data), for deeper histories
+fn core_alphabet(role: Role) -> Vec<(String, u8, u16, u16)> {
+    seq_alphabet(role)
+        .into_iter()
+        .filter(|f| matches!(f.0.as_str(), "reset" | "conf-data-fcb0" | "conf-data-fcb1" | "reconnect" | "unconf-data" | "test-fcb1"))
+        .collect()
+}
+
 fn seq_alphabet(role: Role) -> Vec<(String, u8, u16, u16)> {
     let own = role.own();
     let peer = role.peer();
@@ -539,7 +548,7 @@ fn seq_alphabet(role: Role) -> Vec<(String, u8, u16, u16)> {
 
 impl Scenario for LSeq {
     fn name(&self) -> String {
-        format!("link-sequences-{:?}-d{}", self.role, self.depth)
+        format!("link-sequences-{:?}-d{}{}", self.role, self.depth, if self.frames.len() < 10 { "-core" } else { "" })
     }
     fn alphabet(&self) -> Vec<String> {
         self.frames.iter().map(|f| f.0.clone()).collect()
@@ -982,6 +991,12 @@ pub fn replay(name: &str, path: &[usize]) -> Option<RunResult> {
                 return Some(s.run(path, true));
             }
         }
+        for depth in [5usize, 7] {
+            let s = LSeq { role, depth, frames: core_alphabet(role) };
+            if s.name() == name {
+                return Some(s.run(path, true));
+            }
+        }
     }
     None
 }
@@ -992,6 +1007,7 @@ pub fn check(tier: &str) -> i32 {
     for role in [Role::Outstation, Role::Master] {
         let depth = if tier == "quick" { 3 } else { 4 };
         c.explore(&LSeq { role, depth, frames: seq_alphabet(role) });
+        c.explore(&LSeq { role, depth: if tier == "quick" { 5 } else { 7 }, frames: core_alphabet(role) });
     }
     c.cases(&build_app());
     c.cases(&build_split());
